@@ -376,8 +376,26 @@ pub fn parse_u64(s: &str) -> Option<u64> {
 
 /// Install a panic hook that prints the panic and aborts the process (a panicking GC worker
 /// would otherwise leave everything else blocked forever).
+thread_local! {
+    /// While > 0 on this thread, a panic is recorded and unwinds (to a `catch_unwind`) instead of aborting.
+    pub static PANIC_TRAP: std::cell::Cell<u32> = const { std::cell::Cell::new(0) };
+    pub static TRAPPED_PANIC: std::cell::RefCell<Option<String>> = const { std::cell::RefCell::new(None) };
+}
+
+/// Run `f`; a panic inside it is caught and returned as Err(message) instead of aborting the process.
+pub fn trap_panic<R>(f: impl FnOnce() -> R) -> Result<R, String> {
+    PANIC_TRAP.with(|t| t.set(t.get() + 1));
+    let r = std::panic::catch_unwind(std::panic::AssertUnwindSafe(f));
+    PANIC_TRAP.with(|t| t.set(t.get() - 1));
+    r.map_err(|_| TRAPPED_PANIC.with(|m| m.borrow_mut().take()).unwrap_or_else(|| "panic".to_string()))
+}
+
 pub fn abort_on_panic() {
     std::panic::set_hook(Box::new(|info| {
+        if PANIC_TRAP.with(|t| t.get()) > 0 {
+            TRAPPED_PANIC.with(|m| *m.borrow_mut() = Some(format!("{}", info)));
+            return;
+        }
         let bt = std::backtrace::Backtrace::force_capture();
         eprintln!(
             "VERIF-PANIC thread={:?} {}\n{}",
